@@ -2,6 +2,8 @@ package props
 
 import (
 	"fmt"
+	"os"
+	"os/exec"
 	"regexp"
 	"strconv"
 	"strings"
@@ -341,12 +343,63 @@ func genValidity(t *rapid.T, label string) *core.Validity {
 	return v
 }
 
+// ---- the same oracle through the real binary with the TZ environment variable
+
+type c04CLI struct {
+	Zone string // IANA name handed to the process as TZ
+	V    core.Validity
+}
+
+// fixed-offset zones (no DST, stable since 1950): name -> offset in seconds
+var cliZones = map[string]int{"UTC": 0, "Etc/GMT+5": -5 * 3600, "Etc/GMT-3": 3 * 3600, "Etc/GMT-14": 14 * 3600, "Etc/GMT+12": -12 * 3600, "Asia/Kolkata": 19800}
+
+func checkC04CLI(c c04CLI) *core.Failure {
+	off, ok := cliZones[c.Zone]
+	if !ok {
+		return nil
+	}
+	w := World{Ents: []core.Entity{{File: "e.yaml", Subject: []core.RDN{{Key: "CN", Value: "tz"}}, Validity: &c.V}}}
+	d := w.Dir()
+	root, err := os.MkdirTemp("", "gopki-tz-")
+	if err != nil {
+		return nil
+	}
+	defer os.RemoveAll(root)
+	if d.Materialise(root) != nil {
+		return nil
+	}
+	cmd := exec.Command(os.Getenv("VERIF_CLI"), "sign", root)
+	cmd.Env = append(os.Environ(), "TZ="+c.Zone)
+	out, err := cmd.CombinedOutput()
+	if err != nil {
+		return core.Failf("C04/cli-failed", "TZ=%s %+v: %v: %s", c.Zone, c.V, err, out)
+	}
+	if _, err := d.Absorb(root); err != nil {
+		return nil
+	}
+	dec, _ := readEntity(d, &w.Ents[0])
+	if dec == nil || dec.Cert == nil {
+		return core.Failf("C04/valid-validity-rejected", "TZ=%s %+v: no certificate: %s", c.Zone, c.V, out)
+	}
+	nb, _ := localMidnightUTC(c.V.From, off)
+	if got := secsOf(dec.Cert.NotBefore); got != nb {
+		return core.Failf("C04/cli-notBefore", "TZ=%s: notBefore %v, expected %v (from=%s at local midnight)", c.Zone, dec.Cert.NotBefore, timeOfSecs(nb), c.V.From)
+	}
+	if c.V.Until != "" {
+		na, _ := localMidnightUTC(c.V.Until, off)
+		if got := secsOf(dec.Cert.NotAfter); got != na {
+			return core.Failf("C04/cli-notAfter", "TZ=%s: notAfter %v, expected %v (until=%s at local midnight)", c.Zone, dec.Cert.NotAfter, timeOfSecs(na), c.V.Until)
+		}
+	}
+	return nil
+}
+
 var tzOffsets = []int{0, 3600, -3600, 7200, 19800, 20700, 34200, 45900, 50400, -12 * 3600, -34200, -5 * 3600, 13 * 3600, 9 * 3600}
 
 func TestC04(t *testing.T) {
 	r := core.Start(t, "C04")
 	defer r.Finish()
-	r.Rule = "one self-signed entity; validity block of the certificate and (optionally) of a referenced profile each drawn from {absent, {}, from, until, duration, from+until, from+duration, until+duration(+from)}; dates over 1950-2200 with month and day independent (edge years and the 2049/2050 boundary weighted, 10% of over-long days kept impossible), durations [Ny][Nm][Nd] up to 200y/2400m/100000d plus absurd ones; local zone = fixed offset from 14 values (-12:00..+14:00 incl. :30/:45) set through time.Local; YAML plain/quoted and JSON. Oracle: own civil-date arithmetic. Non-trivial = a successful certificate whose effective block has a date with day != month, or a non-zero offset, or a time in 2049/2050; distinct by the whole case."
+	r.Rule = "one self-signed entity; validity block of the certificate and (optionally) of a referenced profile each drawn from {absent, {}, from, until, duration, from+until, from+duration, until+duration(+from)}; dates over 1950-2200 with month and day independent (edge years and the 2049/2050 boundary weighted, 10% of over-long days kept impossible), durations [Ny][Nm][Nd] up to 200y/2400m/100000d plus absurd ones; local zone = fixed offset from 14 values (-12:00..+14:00 incl. :30/:45) set through time.Local; YAML plain/quoted and JSON; plus the built CLI binary run with TZ set to six fixed-offset IANA zones. Oracle: own civil-date arithmetic. Non-trivial = a successful certificate whose effective block has a date with day != month, or a non-zero offset, or a time in 2049/2050; distinct by the whole case."
 	r.Assumptions = []string{"fixed-offset zones only (local midnight unambiguous)", "when adding years/months lands on a non-existent day, roll-over and clamping are both accepted", "results beyond year 9999 may only be refused"}
 	wrap := func(c c04Case) *core.Failure {
 		eff := c.Cert
@@ -400,6 +453,12 @@ func TestC04(t *testing.T) {
 		r.Sample(cls[len(cls)-1], c)
 		return checkC04(c)
 	}
+	wrapCLI := func(c c04CLI) *core.Failure {
+		r.Case(fmt.Sprintf("cli %s %+v", c.Zone, c.V), "cli-tz:"+c.Zone)
+		r.Sample("cli-tz", c)
+		return checkC04CLI(c)
+	}
+	core.Register(r, "cli-tz", wrapCLI)
 	core.Register(r, "validity", wrap)
 	if r.Replays() {
 		return
@@ -449,4 +508,15 @@ func TestC04(t *testing.T) {
 		return c
 	}
 	core.Rapid(r, "validity", r.Pick(6000, 250000), gen, wrap)
+	zones := sortedKeys(cliZones)
+	core.Rapid(r, "cli-tz", r.Pick(48, 1200), func(t *rapid.T) c04CLI {
+		c := c04CLI{Zone: rapid.SampledFrom(zones).Draw(t, "zone"), V: core.Validity{From: genDate(t, "from")}}
+		if rapid.Bool().Draw(t, "hasuntil") {
+			c.V.Until = genDate(t, "until")
+		}
+		for !validSpec(&c.V) {
+			c.V = core.Validity{From: "2049-12-31", Until: "2050-01-01"}
+		}
+		return c
+	}, wrapCLI)
 }
